@@ -13,7 +13,11 @@ import z3
 import sym, models, strmodels, stridx, gcmodels, utf8models as U, targets
 import opcheck as Q
 from sym import Sc, Adt, Ref, Opaque, Inconclusive
-from opkernels import CRATE_PREFIXES
+from opkernels import CRATE_PREFIXES, prim, sym_payload, KTY
+from sym import INT_TYPES
+
+VAR_KINDS = ("Int", "BigInt", "Byte")
+VAR_NMAX = {"quick": 2, "thorough": 3}
 
 NMAX = {"quick": 3, "thorough": 4}
 SAMPLE = {1: [0x61, 0x7A], 2: [0xE9, 0x7FF], 3: [0x4E16, 0xFFFD], 4: [0x1F600, 0x10FFFF]}
@@ -72,6 +76,175 @@ class StrIndexKernels:
                 raise Inconclusive("vec_op left %r" % (res,))
             paths.append((pcz, "ok", [c.e for c in res.fields[0].fields]))
         return IdxSummary(widths, k, chars, paths, time.time() - t)
+
+
+class VarIdxSummary(IdxSummary):
+    """index taken from a local variable (`s[i]`): the index value is a full-width symbolic payload of its kind"""
+
+    def __init__(self, widths, kind, idx, chars, paths, dt):
+        IdxSummary.__init__(self, widths, None, chars, paths, dt)
+        self.kind, self.idx = kind, idx
+
+    @property
+    def arm(self):
+        return "widths=%s,index:%s" % ("".join(map(str, self.widths)) or "-", self.kind)
+
+
+def summarize_var(xk, widths, kind):
+    t = time.time()
+    chars = [z3.BitVec("u%d_%d" % (i, w), 32) for i, w in enumerate(widths)]
+    pc = []
+    for c, w in zip(chars, widths):
+        U.register_width(c, w)
+        pc.append(U.class_constraint(c, w))
+        pc.append(z3.UGE(c, 0x20))
+    idx = sym_payload(kind, "i")
+    ops = [Adt("Primitive", "Str", [strmodels.sstr([Sc("char", c) for c in chars])])]
+    cells = {("ctx",): Adt("Ctx", None, [Adt("Vec", None, ops)] + [Opaque("ctx-field", i) for i in range(1, 6)]),
+             ("iargs",): Adt("[]", None, [Opaque("strlit", '"[i]"')]), ("var", "i"): prim(kind, idx)}
+    outs = xk.ex.run(xk.fn, [Ref(("ctx",)), Ref(("iargs",))], cells=cells, pc=pc)
+    paths = []
+    for o in outs:
+        pcz = z3.And(*o.pc) if o.pc else z3.BoolVal(True)
+        if o.kind == "panic":
+            paths.append((pcz, "panic", o.value.msg))
+            continue
+        v = o.value
+        if v.variant == "Err":
+            paths.append((pcz, "err", None))
+            continue
+        stack = o.cells[("ctx",)].fields[0]
+        res = stack.fields[0] if len(stack.fields) == 1 else None
+        if not (isinstance(res, Adt) and res.variant == "Str" and strmodels.is_sstr(res.fields[0])):
+            raise Inconclusive("vec_op left %r" % (stack,))
+        paths.append((pcz, "ok", [c.e for c in res.fields[0].fields]))
+    return VarIdxSummary(widths, kind, idx, chars, paths, time.time() - t)
+
+
+def var_shapes(tier):
+    out = []
+    for n in range(VAR_NMAX.get(tier, 2) + 1):
+        for ws in itertools.product((1, 2, 3, 4), repeat=n):
+            for kind in VAR_KINDS:
+                out.append((ws, kind))
+    return out
+
+
+def _idx_is(s, k):
+    """the index value, read as the mathematical integer of its kind, equals k"""
+    bits, signed = INT_TYPES[KTY[s.kind]]
+    return s.idx.e == z3.BitVecVal(k, bits)
+
+
+def var_native_args(s, cps, iv):
+    bits, _ = INT_TYPES[KTY[s.kind]]
+    return native_args(cps) + [(s.kind, iv & ((1 << bits) - 1))]
+
+
+def var_eval(s, cps, iv):
+    bits, _ = INT_TYPES[KTY[s.kind]]
+    subs = [(c, z3.BitVecVal(v, 32)) for c, v in zip(s.chars, cps)] + [(s.idx.e, z3.BitVecVal(iv, bits))]
+    hits = []
+    for pc, kind, val in s.paths:
+        if z3.is_true(z3.simplify(z3.substitute(pc, *subs))):
+            if kind == "ok":
+                out = [z3.simplify(z3.substitute(e, *subs)).as_long() for e in val]
+                hits.append(["OK", "Str", _utf8(out).hex()])
+            else:
+                hits.append(["PANIC"] if kind == "panic" else ["ERR"])
+    if not hits or any(h != hits[0] for h in hits):
+        raise Inconclusive("str[i][%s]: %d paths enabled on %r %r" % (s.arm, len(hits), cps, iv))
+    return hits[0]
+
+
+def var_validate(summaries, nat_eval, release):
+    vecs, want = [], {}
+    for si, s in enumerate(summaries):
+        bits, signed = INT_TYPES[KTY[s.kind]]
+        ivs = {0, 1, s.n - 1 if s.n else 0, s.n, s.n + 1, (1 << bits) - 1, 1 << (bits - 1)}
+        if bits > 64:
+            ivs |= {1 << 64, (1 << 64) + 1}
+        cps = [SAMPLE[w][0] for w in s.widths]
+        for gi, iv in enumerate(sorted(ivs)):
+            vid = "y%d_%d" % (si, gi)
+            vecs.append((vid, "W:[i]", var_native_args(s, cps, iv)))
+            want[vid] = (s, cps, iv)
+    res = nat_eval(vecs, release)
+    mism = []
+    for vid, (s, cps, iv) in want.items():
+        pred = var_eval(s, cps, iv)
+        got = norm_native(res[vid])
+        if pred != got:
+            mism.append((s.arm, [hex(c) for c in cps], hex(iv), "engine", pred, "real", got))
+    return len(vecs), mism
+
+
+def check_var_summary(s, profile, qs, timeout_ms, seed, prop):
+    out = []
+    bits, signed = INT_TYPES[KTY[s.kind]]
+    lab0 = "str[i][%s]/%s" % (s.arm, profile)
+    in_range = z3.Or(*[_idx_is(s, k) for k in range(s.n)]) if s.n else z3.BoolVal(False)
+
+    def ask(cond, label):
+        qs.obligations += 1
+        t = time.time()
+        c = z3.simplify(cond)
+        if z3.is_false(c):
+            qs.discharged += 1
+            return None
+        r, m = Q.solve(c, timeout_ms, seed)
+        qs.solver_s += time.time() - t
+        if r == z3.unsat:
+            qs.discharged += 1
+            if len(qs.samples) < 12:
+                qs.samples.append({"obligation": label, "result": "unsat", "smt_size": len(c.sexpr())})
+            return None
+        if r == z3.sat:
+            qs.violated += 1
+            cps = []
+            for c_, w in zip(s.chars, s.widths):
+                v = m.eval(c_, model_completion=False)
+                cps.append(v.as_long() if z3.is_bv_value(v) else SAMPLE[w][0])
+            iv = m.eval(s.idx.e, model_completion=True).as_long()
+            return cps, iv
+        qs.undecided.append(label)
+        return None
+
+    def finding(cls, w, detail):
+        cps, iv = w
+        f = Q.Finding(prop, "str.index", s.arm, cls, profile, var_native_args(s, cps, iv), detail)
+        f.native_op = "W:[i]"
+        f.predicted = var_eval(s, cps, iv)
+        f.via = "instruction `vec_op [i]`"
+        f.summ_uninterpreted = False
+        sv = iv - (1 << bits) if signed and iv >= 1 << (bits - 1) else iv
+        f.human = "%r[i] with i = %s %d" % ("".join(chr(c) for c in cps), s.kind, sv)
+        return f
+
+    for pi, (pc, kind, val) in enumerate(s.paths):
+        lab = "%s:path%d" % (lab0, pi)
+        if prop == "C17":
+            if kind == "panic":
+                w = ask(pc, lab + ":no-panic")
+                if w is not None:
+                    out.append(finding("panic:" + Q.panic_class(val), w, "Rust panic `%s` while indexing a string" % val))
+            else:
+                qs.obligations += 1
+                qs.discharged += 1
+            continue
+        if kind == "ok":
+            good = z3.Or(*[z3.And(_idx_is(s, k), val[0] == s.chars[k]) for k in range(s.n)]) if (s.n and len(val) == 1) else z3.BoolVal(False)
+            w = ask(z3.And(pc, z3.Not(good)), lab + ":ok=>character-at-index")
+            if w is not None:
+                subs = [(s.idx.e, z3.BitVecVal(w[1], bits))]
+                indom = z3.is_true(z3.simplify(z3.substitute(in_range, *subs)))
+                out.append(finding("wrong-value" if indom else "ok-on-undefined:range", w,
+                                   "the result is not the character at the index" if indom else "a value is produced although the index is outside 0..len"))
+        else:
+            w = ask(z3.And(pc, in_range), lab + ":fail=>index-out-of-range")
+            if w is not None:
+                out.append(finding("spurious-failure", w, "indexing fails (%s) although the index denotes a character of the string" % kind))
+    return out
 
 
 def shapes(tier):
